@@ -346,13 +346,15 @@ def alias_descs():
             yield {"name": "top", "nodes": nodes}
     # two wide parity gates sharing TWO operands, under every assignment of names to the four roles (the chain
     # order of each gate follows set iteration order, so the shared pair can be met in either order)
-    for perm in itertools.permutations(POOL[:5], 4):
-        for t1, t2 in (("xor", "xor"), ("xor", "xnor"), ("xnor", "xnor")):
-            x1, x2, x3, x4 = perm
-            nodes = [[i, "input", [], False] for i in POOL[:5]]
-            nodes.append(["g", t1, [x1, x2, x3], True])
-            nodes.append(["h", t2, [x1, x2, x4], True])
-            yield {"name": "top", "nodes": nodes}
+    pool8 = POOL + ["x1", "x6"]
+    for perm in itertools.permutations(pool8, 4):
+        x1, x2, x3, x4 = perm
+        for t1, t2 in (("xor", "xnor"),) if perm[0] > perm[1] else (("xor", "xor"), ("xnor", "xnor")):
+            for hl in ([x2, x1, x4], [x4, x2, x1]):
+                nodes = [[i, "input", [], False] for i in sorted(set(perm))]
+                nodes.append(["g", t1, [x1, x2, x3], True])
+                nodes.append(["h", t2, hl, True])
+                yield {"name": "top", "nodes": nodes}
     # two parity gates sharing an operand pair (shared auxiliary variable is fine if handled)
     for t1, t2 in itertools.product(("xor", "xnor"), repeat=2):
         nodes = [[i, "input", [], False] for i in ["p", "q", "r", "s"]]
@@ -367,6 +369,10 @@ def run_alias(job, acc):
         c = space.build(desc)
         acc.states += 1
         acc.nontrivial += 1
+        if "h" in c.graph and len(c.graph.pred["g"]) == 3 and len(c.graph.pred["h"]) == 3:
+            lg, lh = list(c.fanin("g")), list(c.fanin("h"))
+            if lg[-2:] == lh[-2:][::-1]:
+                acc.extra["shared_pair_met_in_opposite_order"] = acc.extra.get("shared_pair_met_in_opposite_order", 0) + 1
         want = check_cnf(acc, c, case, "alias")
         if want is not None:
             check_solve(acc, c, case, "alias", want, {"g": True}, ANSWERS_FEW)
